@@ -196,6 +196,13 @@ func (nz *normalizer) sqlToBindvar(node SQLNode) *querypb.BindVariable {
 			v, err = sqltypes.NewValue(sqltypes.Int64, node.Val)
 		case FloatVal:
 			v, err = sqltypes.NewValue(sqltypes.Float64, node.Val)
+			if err != nil {
+				// a float that does not fit (1e999) is a literal all the same
+				v, err = sqltypes.NewValue(sqltypes.VarBinary, node.Val)
+			}
+		case HexVal, BitVal:
+			// X'..' and B'..' are string literals in another quoting form
+			v, err = sqltypes.NewValue(sqltypes.VarBinary, node.Val)
 		default:
 			return nil
 		}
